@@ -393,6 +393,16 @@ add('MISC',
     Rule('X-MISC', 'storage.0.extend(&$w:i.slice()[..$n:e]);', 'extend_samples(&mut storage.samples, &$w, $n);', stmt_start=True),
     Rule('X-MISC', 'storage.1.extend($t:i);', 'extend_tags(&mut storage.tags, $t);', stmt_start=True))
 
+# X-CRC (unit crc): the table is a slice constant (Verus: consts are dual-mode, no slice coercion) -> array constant of the
+# same literals; `fold` over the bytes -> the loop it is
+add('CRC',
+    Rule('X-CRC', 'const FCSTAB: &[u16] = &[', 'const FCSTAB: [u16; 256] = ['),
+    Rule('X-CRC', 'data.iter().fold($init:e, |fcs, byte| $body:b)',
+         '({ let mut fcs: u16 = $init; let mut __k: usize = 0; while __k < data.len() { let byte = &data[__k]; fcs = $body; __k += 1; } fcs })'),
+    Rule('X-CRC', 'data.to_vec()', 'slice_to_vec(data)'),
+    Rule('X-CRC', 'calc_crc(&copy)', 'calc_crc(vec_as_slice(&copy))'),
+    Rule('X-CRC', 'copy[byte] ^= x;', 'copy[byte] = copy[byte] ^ x;', stmt_start=True))
+
 # X-ZC (unit zc): float expressions of zero_crossing.rs become calls of uninterpreted functions; the optional clock stream
 add('ZC',
     Rule('X-ZC', '($a:e + ($b:e / 2.0)) as u64', 'f2u(fadd($a, fhalf($b)))'),
